@@ -67,7 +67,7 @@ CLAIMS = {
     "C13": ("model_checking",
             "explicit-state search over the real SpaceKeeper under the quiescence scheduler with small request-channel capacities; deadlock = pending call after drain, decided from goroutine wait reasons",
             "qsched",
-            "As C09 with a request channel of capacity 0 and 1 (thorough 2 and 3 workspaces), up to 2 calls in flight, keeper.Stop() at any moment as an action; every terminal execution is drained (Stop issued, gates released, running plot completed): any call or Stop that has not returned is a deadlock; panics in calls or in the plotter (process death) are violations. Scenarios lockgates-*: the keeper's sync import is replaced by a shim whose RWMutex acquisitions are scheduling points, so other calls and plotter steps are ordered between the lock scopes of one call (bulk forms included; budget 2 quick / 3 thorough). Thorough adds a scripted history at the production channel capacity (1 025 requests). Open findings: PlotWS/MineWS send on the full channel while holding the state lock (2 fingerprints). Fixed finding: plotter popped from a queue emptied by a concurrent stop (panic).",
+            "As C09 with a request channel of capacity 0 and 1 (thorough 2 and 3 workspaces), up to 2 calls in flight, keeper.Stop() at any moment as an action; every terminal execution is drained (Stop issued, gates released, running plot completed): any call or Stop that has not returned is a deadlock; panics in calls or in the plotter (process death) are violations. Scenarios lockgates-*: the keeper's sync import is replaced by a shim whose RWMutex acquisitions are scheduling points, so other calls and plotter steps are ordered between the lock scopes of one call (bulk forms included; budget 2 quick / 3 thorough). Thorough adds a scripted history at the production channel capacity (1 025 requests). Fixed findings: PlotWS/MineWS sent on the full request channel while holding the state lock (deadlock, 2 fingerprints); plotter popped from a queue emptied by a concurrent stop (panic); plot queue modified without its lock.",
             "part skchia: as for C09 (requests, queries, keeper Stop/Start, 2 in flight; drained from every reached state); capacity 0-2 stands for 1024 in the exhaustive part; Go's random select between quit and a ready request is handled by replay retries; unsynchronised accesses that are not lock acquisitions or plotter gates are not scheduling points",
             "DESIGN.md §C13"),
     "C15": ("exploration",
